@@ -523,23 +523,30 @@ class OutlierSuite(PairedSuite):
     def scenarios(self, rng, tier):
         for i in range(80 if tier == "quick" else 800):
             leads = rng.choice([True, False])
-            a, orc = line_session(rng, kind="regression", inertia=rng.choice([0.0, 0.3, 0.5, 0.8]),
-                                  human_leads=leads, nrows=9, n=rng.choice([6, 8, 10]),
+            # (a band that has settled well away from the configured speed - Wheatley takes its line over exactly with inertia 0
+            # once a regression has been made - is a settled rhythm too: "places out" are places of the line being RUNG)
+            ratio = rng.choice([1, 1, 1, Fraction(8, 10), Fraction(8, 10)])
+            a, orc = line_session(rng, kind="regression", inertia=rng.choice([0.0, 0.3, 0.5, 0.8]) if ratio == 1 else 0.0,
+                                  ratio=ratio, human_leads=leads, nrows=9, n=rng.choice([6, 8, 10]),
                                   # ("any dataset size": also the smallest -X values, for which no line is ever fitted)
-                                  max_bells=rng.choice([5, 8, 15, 30, 2, 3, 4]), jitter_us=rng.choice([0, 100]),
-                                  n_humans=rng.choice([None, None, 1]),
+                                  max_bells=rng.choice([5, 8, 15, 30, 2, 3, 4]) if ratio == 1 else rng.choice([8, 15, 30]),
+                                  jitter_us=rng.choice([0, 100]) if ratio == 1 else 0,
+                                  n_humans=rng.choice([None, None, 1]) if ratio == 1 else None,
                                   # (a human leader need not pull off at Look to + 3 s: two or three places later or earlier
                                   # - the measure of "places out" is the line being rung, not the nominal start)
                                   offset_places=rng.choice([0, 0, 2, -2, 3]) if leads else 0,
-                                  via_setting=(i % 4 == 3))
-            iv, n = Fraction(orc["iv"]), orc["n"]
-            # "once the rhythm is settled": from the third whole row on (two or more datapoints are held)
-            cands = [(j, hb) for j, hb in enumerate(orc["human_blows"]) if hb[0] >= 2 and hb[0] <= 6]
+                                  via_setting=(i % 4 == 3 and ratio == 1))
+            iv, n = Fraction(orc["iv"]) * ratio, orc["n"]
+            # "once the rhythm is settled": from the third whole row on (two or more datapoints are held); away from the
+            # configured speed only once the first regressions have been made
+            cands = [(j, hb) for j, hb in enumerate(orc["human_blows"]) if hb[0] >= (2 if ratio == 1 else 4) and hb[0] <= 6]
             j, (r, p, b, t) = rng.choice(cands)
             idx = sum(1 for hb in orc["human_blows"][:j] if hb[2] == b)
             # between three places and (safely) less than the distance to the same bell's neighbouring strikes
             places = Fraction(rng.randint(300, max(301, (n - 2) * 100)), 100) * rng.choice([-1, 1])
-            if i % 4 == 3:
+            if ratio != 1 and rng.random() < 0.6:
+                places = Fraction(rng.randint(300, 345), 100) * rng.choice([-1, 1])      # only just a gross blunder
+            if i % 4 == 3 and ratio == 1:      # (re-sending the CONFIGURED speed to a band settled elsewhere would be a real change)
                 # server mode: just before the blunder the peal speed in force is sent AGAIN (somebody touched the control
                 # without moving it): the rhythm stays settled, and so does its memory of the band
                 t_set = min(Fraction(t), Fraction(t) + iv * places) - iv * Fraction(rng.randint(20, 60), 100)
@@ -547,7 +554,7 @@ class OutlierSuite(PairedSuite):
                 a["events"] = sorted_events(a["events"] + [ev(t_set, "setting", [["peal_speed", a["rhythm"]["peal_speed"]]])])
             b_sc = perturb_events(a, {(b, idx): Fraction(t) + iv * places + Fraction(1, 10 ** 6)})
             yield {"a": a, "b": b_sc, "pick": "b" if i % 2 else "a",
-                   "oracle": dict(orc, displaced=[r, p, b, float(places)])}
+                   "oracle": dict(orc, displaced=[r, p, b, float(places)], off_speed=(ratio != 1))}
 
     def cases(self, rng, tier):
         yield from self.scenarios(rng, tier)
@@ -556,6 +563,16 @@ class OutlierSuite(PairedSuite):
         if "trace" not in out["a"] or "trace" not in out["b"]:
             return None
         wa, wb = wheatley_strikes(out["a"]), wheatley_strikes(out["b"])
+        orc = case["oracle"]
+        if orc.get("off_speed"):
+            # "once the rhythm is settled": the premise is read off the undisturbed run - in the row before the blunder
+            # Wheatley's strikes lie on the band's line (a band too far from the configured speed is never followed)
+            n, gap = orc["n"], Fraction(orc["gap"])
+            a0, b0 = Fraction(orc["lines"][0][1]), Fraction(orc["lines"][0][2])
+            r0 = orc["displaced"][0] - 1
+            prev = [x for x in wa if x[0] == r0]
+            if not prev or any(abs(x[3] - (a0 + b0 * (x[0] * n + x[1] + (x[0] // 2) * gap))) > Fraction(5, 1000) for x in prev):
+                return None
         for x, y in zip(wa, wb):
             if x[:3] != y[:3] or abs(x[3] - y[3]) > Fraction(case["oracle"]["tol"]):
                 d = case["oracle"]["displaced"]
